@@ -730,6 +730,9 @@ class Evaluator:
                     if o.cls is not None:
                         return o.cls.find_attr(a) is not None or \
                             o.cls.find_method(a) is not None
+                    # an abstract object of no repository class has the
+                    # attributes the rule declared, and no others
+                    return False
         if dotted(f) in ("re.match", "re.search", "re.fullmatch", "re.sub",
                          "re.split", "re.findall") and not node.keywords \
                 and self.hooks is None:
